@@ -152,13 +152,6 @@ Definition hook_execfile (F : faults) (names : list nm) (s : state) : res unit :
   | Raise s' e => if is_Exception e then Ret (log_emit s') tt else Raise s' e
   end.
 
-(*  run_with_debugger_with_autoimport(code, code_ns, filename=None, ...):
-        db = ImportDB.get_default(filename or ".")
-        auto_import(code, namespaces=[code_ns], db=db)          <- the module-level function: no _safe_call
-        with HookPdbCtx(): return __original__(...)                                         *)
-Definition hook_run_with_debugger (F : faults) (names : list nm) (s : state) : res unit :=
-  bind (visit F SDbLoad s) (fun s _ => bind (auto_import_body F names s) (fun s _ => Ret s tt)).
-
 (*  InterceptPrintsDuringPromptCtx(ip)   [ip is a shell without `readline`]:
         if type(sys.stdout).__module__.startswith("prompt_toolkit."): return NullCtx()
         if not hasattr(ip, "prompts_class"): return NullCtx()
@@ -169,9 +162,27 @@ Record io_env := mkIo {
   io_stdout_proxy : bool;      (* sys.stdout is prompt_toolkit's proxy *)
   io_prompts_class : bool;     (* hasattr(ip, "prompts_class") *)
   io_pt_cli : bool;            (* hasattr(ip, "pt_cli") *)
-  f30_fixed : bool             (* code variant: fixes/F30 (NullCtx without pt_cli; HookCtx resets in a finally) *)
+  f30_fixed : bool;            (* code variant: fixes/F30 (NullCtx without pt_cli; HookCtx resets in a finally) *)
+  f35_fixed : bool             (* code variant: fixes/F35 (%debug <statement> auto-imports through _safe_call) *)
 }.
 Variable IO : io_env.
+
+(*  run_with_debugger_with_autoimport(code, code_ns, filename=None, ...):
+        db = ImportDB.get_default(filename or ".")
+        auto_import(code, namespaces=[code_ns], db=db)          <- the module-level function: no _safe_call
+        [fixes/F35: both lines inside  self._safe_call(auto_import_for_debugger)]
+        with HookPdbCtx(): return __original__(...)
+   (no `autoimported` dictionary is passed: the importer's per-cell record is not written) *)
+Definition debugger_body (F : faults) (names : list nm) (s : state) : res bool :=
+  let a0 := attempted s in
+  match bind (visit F SDbLoad s) (fun s _ => auto_import_body F names (set_attempted [] s)) with
+  | Ret s' b => Ret (set_attempted a0 s') b
+  | Raise s' e => Raise (set_attempted a0 s') e
+  end.
+Definition hook_run_with_debugger (F : faults) (names : list nm) (s : state) : res unit :=
+  if f35_fixed IO then
+    bind (safe_call (e_debug E) RIfDebug (debugger_body F names) None s) (fun s _ => Ret s tt)
+  else bind (debugger_body F names s) (fun s _ => Ret s tt).
 
 Inductive ictx := INull | IHook (post_raises : bool).
 Definition intercept_ctx : ictx :=
